@@ -157,7 +157,7 @@ def check_object(obj, desc, why, meta_events, tag):
                                                                             cursors.get((removal, dest), 0)))
     # edges = explicit edges + consecutive atoms of the loaded edge-making interactions
     exp_edges = {frozenset(e) for e in desc.get('edges', [])}
-    for t in ('bonds', 'angles', 'dihedrals', 'cmap', 'constraints'):
+    for t in (('bonds', 'angles', 'dihedrals', 'cmap', 'constraints') if kind != 'mod' else ()):      # modifications: explicit [ edges ] only
         for inter in obj.interactions.get(t, []):
             if inter.meta.get('edge', True):
                 exp_edges |= {frozenset(p) for p in zip(inter.atoms[:-1], inter.atoms[1:])}
@@ -600,7 +600,7 @@ def run(tier, seed, ev, vd):
             ev.nontrivial_case(['map', st['lines']])
     # 5. FFFile: well-formed sequences + every fault at every position
     faults = sorted(CH.FAULT_IDS)
-    menu = CH.menu_tla(None if not quick else {1, 2, 3, 4, 5, 6, 7, 8, 10, 11}, faults if not quick else faults[::2] + [faults[-1]])
+    menu = CH.menu_tla(None if not quick else {1, 2, 3, 4, 5, 6, 7, 8, 10, 13, 14}, faults if not quick else faults[::2] + [faults[-1]])
     res = tlc.run('FFFile', 'SPECIFICATION Spec\nINVARIANT ExactlyOnceInOrder\nINVARIANT ErrorIffMalformed\n',
                   consts={'Menu': menu, 'MaxChunks': '3' if quick else '4', 'CloseOnStore': 'TRUE'}, dump=True, timeout=3000)
     if res.violated:
